@@ -2,6 +2,7 @@ package mon
 
 import (
 	"fmt"
+	"sort"
 	"strings"
 	"verif/jsstr"
 
@@ -29,6 +30,26 @@ func genTokKey(t *gen.Tok) string {
 		return "str:" + jsstr.Meaning(t.Text[1:len(t.Text)-1])
 	}
 	return t.Text
+}
+
+// smPositions returns offset -> (line, column) of code under the Source Map convention: LF, CR LF, lone CR end a line.
+func smPositions(code string) func(off int) pos2 {
+	starts := []int{0}
+	for i := 0; i < len(code); i++ {
+		switch code[i] {
+		case '\n':
+			starts = append(starts, i+1)
+		case '\r':
+			if i+1 < len(code) && code[i+1] == '\n' {
+				i++
+			}
+			starts = append(starts, i+1)
+		}
+	}
+	return func(off int) pos2 {
+		l := sort.SearchInts(starts, off+1) - 1
+		return pos2{l, off - starts[l]}
+	}
 }
 
 // checkSourceMap verifies one compile result against the ground truth of the source.
@@ -81,12 +102,16 @@ func checkSourceMap(t *fw.T, rd *gen.Rendered, c Cfg, res compiler.CompileResult
 	genAt := map[pos2]int{}
 	genSemi := map[pos2]bool{}
 	var genSeq []reflex.Item
+	// generated positions follow the Source Map line convention that C09 fixes for the builder (LF, CR LF and a lone CR
+	// are one line break each: a lone CR inside an emitted backtick string starts a new generated line); source
+	// positions are the lexer's (line break = LF)
+	gpos := smPositions(res.Code)
 	for _, it := range items {
 		if it.Kind == reflex.Punct && it.Text == ";" {
-			genSemi[pos2{it.Line, it.Col}] = true
+			genSemi[gpos(it.Off)] = true
 			continue
 		}
-		genAt[pos2{it.Line, it.Col}] = len(genSeq)
+		genAt[gpos(it.Off)] = len(genSeq)
 		genSeq = append(genSeq, it)
 	}
 	orderPreserved := len(genSeq) == len(srcSeq)
